@@ -1,12 +1,48 @@
-/-! Executable model for property C15 (core-only).  Not built yet: the driver answers
-    `unimplemented` so that a check of this property cannot pass by accident. -/
+import FpgoVerif.Model.C15Mailbox
+import FpgoVerif.Model.C15Bcq
+import FpgoVerif.Model.C15Cor
+import FpgoVerif.Model.C15Pool
+/-! Executable model for property C15 (core-only): dispatch of case lines to the five component systems,
+    and the spec-level judge. -/
 namespace FpgoVerif.C15
 
-/-- one protocol case line in, one canonical observation line out -/
-def handle (_line : String) : String := "unimplemented"
+/-- the observation every `stress …` case must produce when the property holds -/
+def stressOk : String := "ok panics=0 late=0 np=0 stuck=0 after=ok"
 
-/-- spec-level oracle: given the case line and the observation printed by the real code, decide
-    whether the *property* is violated (`violation <why>`) or not (`allowed <why>`). -/
-def judge (_line _impl : String) : String := "violation model-and-implementation-disagree"
+/-- one protocol case line in, one canonical observation line out.
+    `<comp> k=v …: step ; step ; …`  or  `stress <comp> k=v …` -/
+def handle (line : String) : String :=
+  match line.splitOn ": " with
+  | [head, body] =>
+    match (head.splitOn " ").filter (· ≠ "") with
+    | comp :: params =>
+      let steps := splitSteps body
+      if comp == "handler" || comp == "actor" then Mb.handleLine comp params steps
+      else if comp == "bcq" then Bq.handleLine params steps
+      else if comp == "cor" then Co.handleLine params steps
+      else if comp == "pool" then Pl.handleLine params steps
+      else "bad-component"
+    | [] => "bad-line"
+  | [head] =>
+    if head.startsWith "stress " then stressOk else "bad-line"
+  | _ => "bad-line"
+
+def hasTok (obs : String) (p : String → Bool) : Bool := ((obs.splitOn " ").filter (· ≠ "")).any p
+
+/-- spec-level oracle, from the property's own statement: a goroutine panicked (`=panic`, `panics=k`, `crash`),
+    a goroutine is stuck for good (`!stuck`, `stuck=k`, `hang`), a callback ran for work submitted after the
+    close returned (`late=k`), the pool's panic handler saw a non-job panic (`np=k`), or a call made after the
+    close returned did not report it (`after=bad…`). -/
+def judge (_line impl : String) : String :=
+  if impl == "hang" then "violation deadlock: the case did not terminate"
+  else if impl == "crash" || impl == "panic" then "violation a goroutine panicked (process-level)"
+  else if hasTok impl (fun t => t.endsWith "=panic") then "violation a calling goroutine panicked"
+  else if hasTok impl (fun t => t.endsWith "!stuck") then "violation deadlock: a goroutine is blocked for good"
+  else if hasTok impl (fun t => t.startsWith "panics=" && t != "panics=0") then "violation a goroutine panicked"
+  else if hasTok impl (fun t => t.startsWith "stuck=" && t != "stuck=0") then "violation deadlock: goroutines blocked for good"
+  else if hasTok impl (fun t => t.startsWith "late=" && t != "late=0") then "violation a callback ran for work submitted after the close returned"
+  else if hasTok impl (fun t => t.startsWith "np=" && t != "np=0") then "violation the pool's panic handler was invoked for a non-job panic"
+  else if hasTok impl (fun t => t.startsWith "after=" && t != "after=ok") then "violation a call begun after the close returned did not report it"
+  else "allowed no panic, no deadlock, no late callback in the observation (model differs)"
 
 end FpgoVerif.C15
